@@ -19,7 +19,7 @@ RULE = ("endings = {orderly release, close (FIN and RST) after every byte offset
         "resource or held a session instance")
 ASSUMPTIONS = ["'at quiescence' = after the disconnect hook was observed and the worker/selector slot count settled, awaited with a 10 s watchdog (expiry = inconclusive unless a server thread died)",
                "connections whose handshake was refused are only required to see <= 1 hook call and a closed socket"]
-REQUIRED_REACH = ["big_request_endings", "tls_daemon_shards", "server_ended_with_lingering_client", "ending_ok", "offset_endings", "resources_closed_once", "session_instances_dropped", "witness_unaffected", "timeout_endings", "security_endings", "callback_endings", "churn_connections_checked", "injected_yields", "application_hooks_that_raised", "resources_tracked_by_oneway_calls", "slow_hook_cases_ok"]
+REQUIRED_REACH = ["racing_first_trackings", "big_request_endings", "tls_daemon_shards", "server_ended_with_lingering_client", "ending_ok", "offset_endings", "resources_closed_once", "session_instances_dropped", "witness_unaffected", "timeout_endings", "security_endings", "callback_endings", "churn_connections_checked", "injected_yields", "application_hooks_that_raised", "resources_tracked_by_oneway_calls", "slow_hook_cases_ok"]
 SHARD_TIMEOUT = {"quick": 240, "thorough": 3000}
 
 
@@ -504,6 +504,7 @@ class Churner(threading.Thread):
         self.serials = []       # (serial, ntrack, ending)
         self.dropped = []       # connections the daemon accepted and then dropped without an answer
         self.oneway_tracked = 0
+        self.racing_first_trackings = 0
         self.error = None
 
     def run(self):
@@ -525,9 +526,25 @@ class Churner(threading.Thread):
                 if m.type != wire.CONNECTOK:
                     c.close()
                     continue
-                r = c.invoke("svc", "setup", (ntrack, 0), {}, ser)
-                serial = ser.loads(r.data)
-                if ntrack >= 1 and ending in ("fin", "rst") and serial % 2 == 0:
+                racing = ntrack == 2 and ending == "fin"
+                if racing:
+                    # the connection's FIRST two resources are tracked at about the same time from two threads: by a oneway call (served by a
+                    # thread of its own) and by the ordinary call that follows it at once on the same connection
+                    serial = ser.loads(c.invoke("svc", "whoami", (), {}, ser).data)
+                    c.invoke("svc", "track_ow", (serial,), {}, ser, flags=wire.F_ONEWAY, read=False)
+                    time.sleep((0.0, 0.002, 0.004, 0.006)[serial % 4])
+                    r = c.invoke("svc", "setup", (ntrack, 0), {}, ser)
+                    end = time.monotonic() + 8.0
+                    while ser.loads(c.invoke("svc", "ow_done", (serial,), {}, ser).data) < 1:
+                        if time.monotonic() > end:
+                            raise RuntimeError("oneway call was not served within 8 s")
+                        time.sleep(0.002)
+                    self.oneway_tracked += 1
+                    self.racing_first_trackings += 1
+                else:
+                    r = c.invoke("svc", "setup", (ntrack, 0), {}, ser)
+                    serial = ser.loads(r.data)
+                if not racing and ntrack >= 1 and ending in ("fin", "rst") and serial % 2 == 0:
                     # one more resource, tracked by a oneway call (served by a thread of its own); the connection ends once that call has been served
                     c.invoke("svc", "track_ow", (serial,), {}, ser, flags=wire.F_ONEWAY, read=False)
                     end = time.monotonic() + 8.0
@@ -602,6 +619,7 @@ def run_churn(fx, world, rec, r, sername, nthreads, rounds, plans=None):
         ent["conn"] = None
         rec.count("churn_connections_checked")
     rec.count("resources_tracked_by_oneway_calls", sum(t.oneway_tracked for t in ths))
+    rec.count("racing_first_trackings", sum(t.racing_first_trackings for t in ths))
     for t in ths:
         if t.dropped:
             # not a clause of C13 by itself (C05/C18 territory); counted so that the evidence shows it
@@ -665,7 +683,7 @@ def run_shard(shard, rec):
         fx, world = make_env(P, shard["servertype"], 0.0, 30.0, pool=(1, 12), variant=fixture.variant_for(rec.seed, "c13", repr(sorted(shard.items()))))
         rec.count("fixture_variant:" + fx.variant)
         try:
-            yieldinj.enable(("Pyro5/svr_threads.py", "Pyro5/svr_multiplex.py"), 0.2, rec.seed * 13 + shard["rep"], max_sleep=0.003,
+            yieldinj.enable(("Pyro5/svr_threads.py", "Pyro5/svr_multiplex.py", "Pyro5/callcontext.py", "Pyro5/socketutil.py"), 0.2, rec.seed * 13 + shard["rep"], max_sleep=0.003,
                             delay_funcs=(("Pyro5/server.py", "run", 0.004),))      # (the thread of a oneway call gets going late)
             for h in range(shard["histories"]):
                 if rec.should_stop():
